@@ -3,6 +3,7 @@ package model
 import (
 	"fmt"
 	"math/rand"
+	"net/url"
 	"strings"
 )
 
@@ -376,6 +377,21 @@ func Variants(p int, claim string) []Variant {
 				Variant{Name: "sentinel-text-1", Coarse: "wrong-shape", Apply: func(a *Claims, g *Gen) { a.Profile = sp("urn:not in profile") }},
 				Variant{Name: "sentinel-text-2", Coarse: "wrong-shape", Apply: func(a *Claims, g *Gen) { a.Profile = sp("tag:example.com,2024:missing optional") }},
 			)
+			// names that only a URI-normalising comparison would equate with the
+			// canonical one (seeded fault C01-u): the object builders keep those
+			// eat.Profile can hold verbatim
+			for i, nm := range append(append([]string{}, NearMissProfileNames...),
+				"http://arm.com/psa/2.0.0#1.0.0", "http://arm.com/psa/2.0.0?profile=http://arm.com/psa/2.0.0",
+				"http://evil@arm.com/psa/2.0.0", "http://arm.com./psa/2.0.0", "http://arm.com/psa//2.0.0", "http://arm.com/PSA/2.0.0") {
+				nm := nm
+				// eat.Profile holds a parsed URL: a name that does not survive
+				// Parse+String (scheme case, empty fragment) IS the canonical
+				// name once inside an object, whatever the route
+				if u, err := url.Parse(nm); err != nil || !u.IsAbs() || u.String() != nm {
+					continue
+				}
+				vs = append(vs, Variant{Name: fmt.Sprintf("near-miss-%d", i), Coarse: "just-outside", Apply: func(a *Claims, g *Gen) { a.Profile = sp(nm) }})
+			}
 		}
 		return vs
 	case "client-id":
